@@ -213,6 +213,23 @@ func main() {
 	if run.Thorough() {
 		maxCap = 6
 	}
+	if run.Replay != "" {
+		var rp struct {
+			Capacity int
+			Path     []op
+		}
+		if _, _, err := run.LoadReplay(&rp); err != nil {
+			ev.Infra("replay: %v", err)
+		}
+		fmt.Println("replaying capacity", rp.Capacity, rp.Path)
+		s := newSys(rp.Capacity)
+		for _, o := range rp.Path {
+			if sig, det := s.apply(o); sig != "" {
+				run.ReplayVerdict("ring "+sig, det)
+			}
+		}
+		run.ReplayVerdict("", "")
+	}
 	totalStates, totalTrans := 0, int64(0)
 	fix := true
 	var samples ev.Samples
@@ -241,7 +258,7 @@ func main() {
 		fix = fix && st.Fixpoint
 		perCap[fmt.Sprint(capa)] = map[string]any{"states": st.States, "transitions": st.Transitions, "depth": st.Depth, "fixpoint": st.Fixpoint}
 		for _, f := range found {
-			run.Violation(fmt.Sprintf("ring %s", f.V.Sig), fmt.Sprintf("%s\npath: %v", f.V.Detail, f.Path), map[string]any{"capacity": capa, "ops": fmt.Sprint(f.Path)})
+			run.Violation(fmt.Sprintf("ring %s", f.V.Sig), fmt.Sprintf("%s\npath: %v", f.V.Detail, f.Path), map[string]any{"capacity": capa, "ops": fmt.Sprint(f.Path), "path": f.Path})
 		}
 		samples.Add(fmt.Sprintf("capacity %d: fixpoint=%v states=%d depth=%d alphabet=%v", capa, st.Fixpoint, st.States, st.Depth, al))
 	}
